@@ -89,8 +89,9 @@ class Server(threading.Thread):
 class UpdateServer(threading.Thread):
     """RFB 3.3 server that answers every FramebufferUpdateRequest, after a delay, with a 1x1 raw update, and logs when"""
 
-    def __init__(self, delay=0.15):
+    def __init__(self, delay=0.15, first_reply_cursor_only=False):
         super().__init__(daemon=True)
+        self.first_reply_cursor_only = first_reply_cursor_only
         self.sock = socket.socket()
         self.sock.bind(("127.0.0.1", 0))
         self.sock.listen(2)
@@ -140,7 +141,11 @@ class UpdateServer(threading.Thread):
                     self.note("request", k)
                     time.sleep(self.delay)
                     self.note("reply", k)
-                    conn.sendall(struct.pack("!BxH", 0, 1) + struct.pack("!HHHHi", 0, 0, 1, 1, 0) + bytes([k & 255, 0, 0, 0]))
+                    if k == 0 and self.first_reply_cursor_only:
+                        # an update that carries only a cursor shape (1x1): no pixel data
+                        conn.sendall(struct.pack("!BxH", 0, 1) + struct.pack("!HHHHi", 0, 0, 1, 1, -239) + bytes(4) + bytes(1))
+                    else:
+                        conn.sendall(struct.pack("!BxH", 0, 1) + struct.pack("!HHHHi", 0, 0, 2, 2, 0) + bytes([k & 255, 0, 0, 0] * 4))
                     k += 1
         except Exception:  # noqa
             pass
@@ -181,6 +186,42 @@ def real_operation_leg(ctx):
             ctx.violate("returns-before-completion", {"input": {"calls": ["refreshScreen(incremental=%s)" % f for f in flags], "server_reply_delay": srv.delay},
                                                       "observed": "%s; order of events %r" % (bad, evs[:12]),
                                                       "how": "vncdotool.api against a loopback RFB server that answers each update request after a delay; server and application thread log into one list"})
+
+
+def real_capture_leg(ctx):
+    """captureScreen through the API returns only when the image has been written - also when the first completed update
+    carried no pixel data and the capture had to wait for a second one"""
+    import io, os, tempfile
+    for si, cursor_first in enumerate([True, False] * ctx.n(1, 4)):
+        srv = UpdateServer(delay=0.1, first_reply_cursor_only=cursor_first)
+        srv.start()
+        cl = api.connect("127.0.0.1::%d" % srv.port, timeout=8)
+        path = os.path.join(tempfile.mkdtemp(prefix="verif-c11-"), "shot.png")
+        err, size_at_return = None, None
+        try:
+            cl.captureScreen(path)
+            size_at_return = os.path.getsize(path) if os.path.exists(path) else 0
+            srv.note("returned", "capture")
+        except Exception as e:  # noqa
+            err = "%s: %s" % (type(e).__name__, e)
+        try:
+            cl.disconnect()
+        except Exception:  # noqa
+            pass
+        with srv.lock:
+            evs = list(srv.events)
+        need = 1 if cursor_first else 0
+        ctx.count("real_capture_sessions")
+        ctx.case(None, key=("capture", si))
+        bad = err
+        if not bad and (("reply", need) not in evs or evs.index(("returned", "capture")) < evs.index(("reply", need))):
+            bad = "captureScreen returned before the server had sent the update with pixel data"
+        if not bad and not size_at_return:
+            bad = "captureScreen returned but the file was empty / missing at that moment"
+        if bad:
+            ctx.violate("returns-before-completion", {"input": {"call": "captureScreen(path)", "first_reply_cursor_only": cursor_first},
+                                                      "observed": "%s; order of events %r" % (bad, evs[:10]),
+                                                      "how": "vncdotool.api against a loopback RFB server whose first reply is a cursor-shape-only update"})
 
 
 class OpError(Exception):
@@ -267,6 +308,7 @@ def run(ctx):
     tlog.startLoggingWithObserver(lambda event: None, setStdout=False)
     srvA, srvB = Server("srvA"), Server("srvB")
     real_operation_leg(ctx)
+    real_capture_leg(ctx)
     srvAuth = Server("srvAuth")
     srvAuth.auth = True
     srvA.start(); srvB.start(); srvAuth.start()
@@ -331,6 +373,11 @@ def run(ctx):
                         break
                     got = out[tag]
                     if refused and ci == 0:
+                        # every call raises the error of the CONNECTION (the same one each time), not a secondary failure
+                        if got[0] == "err" and out[0][0] == "err" and (got[1] != out[0][1] or got[1] in ("AttributeError", "TypeError")):
+                            ctx.violate("refused-does-not-raise", dict(rp, observed="client %d: call 0 raised %s, call %d raised %s(%s): every call must raise the connection's error" % (ci, out[0][1], tag, got[1], got[2][:60])))
+                            ok = False
+                            break
                         if got[0] != "err" or got[1] == "OpError":
                             ctx.violate("refused-does-not-raise", dict(rp, observed="client %d call %d gave %r although the connection could not be established (it must raise, not block until the timeout)" % (ci, tag, got)))
                             ok = False
